@@ -133,6 +133,8 @@ int main(int argc, char** argv) {
                     if (st[a].cls != st[b].cls) continue;
                     if (pairno++ % NJ != (size_t)job) continue;
                     int ka_max = th ? std::min(st[a].ns, 3) : 1, kb_max = th ? std::min(st[b].ns, 3) : 1;
+                    // the SAME setter twice: every ordered pair of its samples (a cached size that is only updated for some values)
+                    if (a == b) ka_max = kb_max = std::min(st[a].ns, th ? 12 : 8);
                     for (int ka = 0; ka < ka_max; ++ka)
                         for (int kb = 0; kb < kb_max; ++kb) {
                             PDU* o = st[a].make();
